@@ -1078,6 +1078,41 @@ func init() {
 		for i, re := range c14FixedTrees() {
 			add(fmt.Sprintf("fix%d", i), re, 6, 8)
 		}
+		// 1b. ten or more groups and two-digit back-references (\10 … \NN): the digits of a reference are read by
+		// separate tests in the real parser; texts contain both the repeated group text and the look-alike
+		// "group ⌊NN/10⌋ followed by the digit NN mod 10"
+		letters := "abcdefghijklmnopqrstuvw"
+		for ng := 10; ng <= sizes(tier, 13, 21); ng++ {
+			for ref := 10; ref <= ng; ref++ {
+				var sb strings.Builder
+				for g := 0; g < ng; g++ {
+					sb.WriteString("(" + string(letters[g]) + ")")
+				}
+				pat := sb.String() + "\\" + strconv.Itoa(ref)
+				rd := &c14Reader{s: pat}
+				re := rd.body()
+				if rd.i != len(pat) || re.pattern() != pat {
+					panic("c14: cannot build the many-groups regex " + pat)
+				}
+				if seen[pat] {
+					continue
+				}
+				seen[pat] = true
+				all := letters[:ng]
+				texts := []string{
+					all + string(letters[ref-1]),
+					all + string(letters[ref/10-1]) + strconv.Itoa(ref%10),
+					all + string(letters[ref-1]) + " " + all + string(letters[ref/10-1]) + strconv.Itoa(ref%10),
+					"x" + all + string(letters[ref/10-1]) + strconv.Itoa(ref%10) + all + string(letters[ref-1]),
+					all,
+				}
+				cases = append(cases, c14Case(fmt.Sprintf("mg%d.%d", ng, ref), re, texts))
+				st.Counts["regexes"]++
+				st.Counts["pairs"] += len(texts)
+				st.Counts["with-backref"]++
+				st.Features["two-digit-backref"]++
+			}
+		}
 		// 2. random regexes of the subset
 		n := sizes(tier, 24000, 80000)
 		for i := 0; i < n; i++ {
